@@ -67,16 +67,85 @@ pub struct GenOpts {
     /// unions that refer to themselves / to each other (known finding class for C14)
     pub recursive_unions: bool,
     pub annotations: bool,
+    /// identifiers from the hostile pool (Rust keywords, case-conversion collisions, leading
+    /// underscores, SHOUTY/camel mixtures) instead of the predictable plain pool
+    pub hostile_names: bool,
+    /// known-finding class container-literal-gaps: set-typed constants, sets / maps nested inside
+    /// list or map literals
+    pub literal_gaps: bool,
+    /// known-finding class default-on-annotated-type: a default on a field whose Rust type is
+    /// changed by pilota.rust_type="vec" or pilota.rust_wrapper_arc
+    pub annotated_defaults: bool,
+    /// known-finding class prelude-name-shadowing: enums / typedefs / constants named Ok, Err,
+    /// None, Some
+    pub prelude_names: bool,
+    /// known-finding class btree-double-hash: pilota.rust_type="btree" on a container that holds
+    /// doubles
+    pub btree_double: bool,
+    /// known-finding class const-newtype-name-collision: a constant whose SHOUTY name equals the
+    /// name of an enum / typedef of the same file
+    pub const_collisions: bool,
 }
 
 impl Default for GenOpts {
     fn default() -> Self {
-        GenOpts { defaults: true, recursion: true, services: true, struct_keys: true, recursive_unions: false, annotations: true }
+        GenOpts { defaults: true, recursion: true, services: true, struct_keys: true, recursive_unions: false, annotations: true, hostile_names: false, literal_gaps: false, annotated_defaults: false, prelude_names: false, btree_double: false, const_collisions: false }
     }
 }
 
 const SYL: [&str; 16] = ["Bak", "Cil", "Dop", "Fen", "Gur", "Haz", "Jex", "Kiv", "Lom", "Nud", "Paf", "Qor", "Ruz", "Sib", "Tav", "Wex"];
 const NS: [&str; 8] = ["alpha", "beta", "core", "data", "edge", "flux", "grid", "hub"];
+
+/// Rust keywords (strict, reserved, weak) that are not reserved words of the Thrift IDL.
+pub const PRELUDE_NAMES: [&str; 4] = ["Ok", "Err", "None", "Some"];
+pub const RUST_KEYWORDS: [&str; 47] = [
+    "as", "break", "continue", "crate", "else", "extern", "fn", "for", "if", "impl", "in", "let", "loop", "match", "mod", "move", "mut", "pub", "ref", "return", "self", "Self",
+    "static", "super", "trait", "type", "unsafe", "use", "where", "while", "async", "await", "dyn", "abstract", "become", "box", "do", "final", "macro", "override", "priv",
+    "typeof", "unsized", "virtual", "yield", "try", "gen",
+];
+/// Groups of names that collide after snake/camel/shouty case conversion.
+pub const COLLIDING: [&[&str]; 6] = [&["TEST", "Test", "test"], &["ip", "IP", "Ip"], &["a_b", "aB", "AB"], &["ID", "Id", "id", "i_d"], &["getHTTPResponse", "get_http_response", "GetHttpResponse"], &["x1", "X1", "x_1"]];
+pub const ODD: [&str; 9] = ["_x", "__y", "a1", "X1Y2", "HTTPServer", "ABC_def", "aBcD", "Z", "q"];
+
+fn mixh(a: u64, b: u64) -> u64 {
+    let mut x = a.wrapping_mul(0x9E37_79B9_7F4A_7C15) ^ b.wrapping_mul(0xC2B2_AE3D_27D4_EB4F);
+    x ^= x >> 29;
+    x = x.wrapping_mul(0xBF58_476D_1CE4_E5B9);
+    x ^ (x >> 32)
+}
+
+/// A hostile identifier, unique within `used` (exact duplicates are not legal Thrift).
+fn hostile(seed: u64, used: &mut std::collections::BTreeSet<String>, prelude: bool) -> String {
+    let h = mixh(seed, 17);
+    if prelude && h % 3 == 0 {
+        let c = PRELUDE_NAMES[(h >> 8) as usize % 4].to_string();
+        if used.insert(c.clone()) {
+            return c;
+        }
+    }
+    let mut cand: String = match h % 10 {
+        0..=3 => RUST_KEYWORDS[(h >> 8) as usize % RUST_KEYWORDS.len()].to_string(),
+        4..=6 => {
+            let g = COLLIDING[(h >> 8) as usize % COLLIDING.len()];
+            g[(h >> 20) as usize % g.len()].to_string()
+        }
+        7 => ODD[(h >> 8) as usize % ODD.len()].to_string(),
+        _ => format!("{}{}", SYL[(h >> 8) as usize % SYL.len()], (h >> 16) % 50),
+    };
+    let mut n = 0;
+    while !used.insert(cand.clone()) {
+        // walk through the collision group / add a suffix
+        n += 1;
+        let h2 = mixh(seed, 100 + n);
+        cand = if n < 6 {
+            let g = COLLIDING[(h2 >> 8) as usize % COLLIDING.len()];
+            g[(h2 >> 20) as usize % g.len()].to_string()
+        } else {
+            format!("{}{}", RUST_KEYWORDS[(h2 >> 8) as usize % RUST_KEYWORDS.len()], n)
+        };
+    }
+    cand
+}
 
 fn arb_raw_ty(depth: u32, key: bool) -> BoxedStrategy<RawTy> {
     let named = (any::<u16>(), prop::bool::weighted(0.25)).prop_map(|(i, b)| RawTy::Named(i, b));
@@ -270,6 +339,7 @@ enum NK {
 }
 
 struct Ctx<'a> {
+    in_const: std::cell::Cell<bool>,
     raw: &'a RawDoc,
     named: Vec<Named>,
     /// resolved declarations so far (for key-eligibility checks), by position
@@ -298,10 +368,13 @@ impl<'a> Ctx<'a> {
 
     /// Is `t` usable as a set element / map key (hashable in Rust, no double inside structs)?
     fn key_ok(&self, t: &STy, in_struct: bool) -> bool {
+        self.key_ok_rec(t, in_struct, &mut vec![])
+    }
+    fn key_ok_rec(&self, t: &STy, in_struct: bool, visiting: &mut Vec<usize>) -> bool {
         match t {
             STy::Double => !in_struct,
             STy::Bool | STy::Byte | STy::I16 | STy::I32 | STy::I64 | STy::String | STy::Binary | STy::Uuid => true,
-            STy::List(e) => self.key_ok(e, in_struct),
+            STy::List(e) => self.key_ok_rec(e, in_struct, visiting),
             STy::Set(_) | STy::Map(..) => false,
             STy::Named(f, n) => {
                 let Some(nm) = self.named.iter().find(|x| x.file == *f && x.name == *n) else { return false };
@@ -309,13 +382,17 @@ impl<'a> Ctx<'a> {
                     NK::Enum => true,
                     NK::Typedef => false,
                     NK::Struct | NK::Exception | NK::Union => {
-                        if !self.raw.opts.struct_keys {
+                        if !self.raw.opts.struct_keys || visiting.contains(&nm.pos) {
+                            // (recursive types are kept out of key position)
                             return false;
                         }
-                        match self.done.get(nm.pos).and_then(|d| d.as_ref()).map(|d| &d.kind) {
-                            Some(DeclKind::Struct(fs)) | Some(DeclKind::Exception(fs)) | Some(DeclKind::Union(fs)) => fs.iter().all(|f| self.key_ok(&f.ty, true)),
+                        visiting.push(nm.pos);
+                        let r = match self.done.get(nm.pos).and_then(|d| d.as_ref()).map(|d| &d.kind) {
+                            Some(DeclKind::Struct(fs)) | Some(DeclKind::Exception(fs)) | Some(DeclKind::Union(fs)) => fs.iter().all(|f| self.key_ok_rec(&f.ty, true, visiting)),
                             _ => false,
-                        }
+                        };
+                        visiting.pop();
+                        r
                     }
                 }
             }
@@ -377,7 +454,7 @@ impl<'a> Ctx<'a> {
             }
             STy::Uuid => None,
             STy::List(e) => {
-                if depth > 1 {
+                if depth > 1 || (depth == 1 && self.in_const.get() && !self.raw.opts.literal_gaps) {
                     return Some(Lit::List(vec![]));
                 }
                 let n = pick(3);
@@ -388,6 +465,10 @@ impl<'a> Ctx<'a> {
                 Some(Lit::List(v))
             }
             STy::Set(e) => {
+                // outside the known-finding class: sets only as a top-level field default
+                if !self.raw.opts.literal_gaps && (depth > 0 || self.in_const.get()) {
+                    return None;
+                }
                 if depth > 1 {
                     return Some(Lit::List(vec![]));
                 }
@@ -400,6 +481,9 @@ impl<'a> Ctx<'a> {
                 Some(Lit::List(v))
             }
             STy::Map(k, v) => {
+                if !self.raw.opts.literal_gaps && depth > 0 {
+                    return None;
+                }
                 if depth > 1 {
                     return Some(Lit::Map(vec![]));
                 }
@@ -417,7 +501,15 @@ impl<'a> Ctx<'a> {
                         let m = &ms[pick(ms.len() as u32) as usize];
                         Some(if pick(3) == 0 { Lit::Int(m.1 as i64) } else { Lit::EnumMember(*f, n.clone(), m.0.clone()) })
                     }
-                    DeclKind::Typedef(t) => self.lit_for(doc_files, t, seed, depth),
+                    DeclKind::Typedef(t) => {
+                        // outside the known-finding class: through a typedef only scalars, strings and lists
+                        let simple = !matches!(t, STy::Map(..) | STy::Set(_) | STy::Named(..));
+                        if simple || self.raw.opts.literal_gaps {
+                            self.lit_for(doc_files, t, seed, depth)
+                        } else {
+                            None
+                        }
+                    }
                     _ => None,
                 }
             }
@@ -425,22 +517,97 @@ impl<'a> Ctx<'a> {
     }
 }
 
+fn has_double(t: &STy) -> bool {
+    match t {
+        STy::Double => true,
+        STy::List(e) | STy::Set(e) => has_double(e),
+        STy::Map(k, v) => has_double(k) || has_double(v),
+        // (named types: a struct holding a double is never a key, and as a value it does not
+        // derive Hash itself)
+        _ => false,
+    }
+}
+
+/// pilota annotations on the shapes the resolver accepts.
+fn field_annots(cx: &Ctx, ty: &STy, seed: u16, i: usize) -> Vec<(String, String)> {
+    let h = mixh(seed as u64, i as u64 + 99);
+    let mut out = vec![];
+    let is_structlike = |t: &STy| match t {
+        STy::Named(f, n) => cx.named.iter().any(|x| x.file == *f && x.name == *n && matches!(x.kind, NK::Struct | NK::Exception | NK::Union)),
+        _ => false,
+    };
+    match ty {
+        STy::String if h % 4 == 0 => {
+            out.push(("pilota.rust_type".to_string(), "string".to_string()));
+            if h % 8 == 0 {
+                out.push(("pilota.rust_wrapper_arc".to_string(), "true".to_string()));
+            }
+        }
+        STy::Binary if h % 4 == 0 => {
+            out.push(("pilota.rust_type".to_string(), "vec".to_string()));
+            if h % 8 == 0 {
+                out.push(("pilota.rust_wrapper_arc".to_string(), "true".to_string()));
+            }
+        }
+        STy::Set(_) | STy::Map(..) if h % 4 == 0 && (cx.raw.opts.btree_double || !has_double(ty)) => out.push(("pilota.rust_type".to_string(), "btree".to_string())),
+        t if is_structlike(t) && h % 5 == 0 => out.push(("pilota.rust_wrapper_arc".to_string(), "true".to_string())),
+        STy::List(e) if is_structlike(e) && h % 5 == 0 => out.push(("pilota.rust_wrapper_arc".to_string(), "true".to_string())),
+        _ => {}
+    }
+    if h % 23 == 0 {
+        out.push(("pilota.name".to_string(), format!("renamed_{}", i)));
+    }
+    if h % 19 == 0 {
+        out.push(("go.tag".to_string(), "json:\"x,omitempty\"".to_string()));
+    }
+    out
+}
+
 pub fn resolve(raw: &RawDoc) -> SDoc {
     let nfiles = raw.nfiles.clamp(1, 3) as usize;
     // names first (so that forward references can be resolved)
     let mut named = vec![];
     let mut names = vec![];
+    let name_seed: u64 = raw.namespaces.iter().fold(raw.decls.len() as u64, |a, n| mixh(a, n.1 as u64 + ((n.0 as u64) << 16)));
+    let mut top_used: Vec<std::collections::BTreeSet<String>> = vec![Default::default(); nfiles];
+    let mut value_ns: Vec<std::collections::BTreeSet<String>> = vec![Default::default(); nfiles];
     for (pos, d) in raw.decls.iter().enumerate() {
         let file = d.file as usize % nfiles;
         let syl = SYL[(pos * 7 + file * 3) % SYL.len()];
-        let (name, nk) = match &d.kind {
-            RawKind::Enum(_) => (format!("{}{}", syl, pos), Some(NK::Enum)),
-            RawKind::Typedef(_) => (format!("{}{}", syl, pos), Some(NK::Typedef)),
-            RawKind::Struct(_) => (format!("{}{}", syl, pos), Some(NK::Struct)),
-            RawKind::Exception(_) => (format!("{}{}", syl, pos), Some(NK::Exception)),
-            RawKind::Union(_) => (format!("{}{}", syl, pos), Some(NK::Union)),
-            RawKind::Const(..) => (format!("K{}{}", syl.to_uppercase(), pos), None),
-            RawKind::Service(_) => (format!("Svc{}", pos), None),
+        let nk = match &d.kind {
+            RawKind::Enum(_) => Some(NK::Enum),
+            RawKind::Typedef(_) => Some(NK::Typedef),
+            RawKind::Struct(_) => Some(NK::Struct),
+            RawKind::Exception(_) => Some(NK::Exception),
+            RawKind::Union(_) => Some(NK::Union),
+            RawKind::Const(..) | RawKind::Service(_) => None,
+        };
+        let name = if raw.opts.hostile_names {
+            let mut n = hostile(mixh(name_seed, pos as u64), &mut top_used[file], raw.opts.prelude_names);
+            if !raw.opts.const_collisions {
+                // constants live in the value namespace next to the tuple structs generated for
+                // enums and typedefs; keep their case-folded names apart
+                let fold = |x: &str| x.chars().filter(|c| c.is_ascii_alphanumeric()).collect::<String>().to_uppercase();
+                let is_value_item = matches!(d.kind, RawKind::Const(..) | RawKind::Enum(_) | RawKind::Typedef(_));
+                let mut k = 0;
+                while is_value_item && value_ns[file].contains(&fold(&n)) {
+                    k += 1;
+                    let c = format!("{}{}", SYL[(pos + k) % SYL.len()], pos * 10 + k);
+                    if top_used[file].insert(c.clone()) {
+                        n = c;
+                    }
+                }
+                if is_value_item {
+                    value_ns[file].insert(fold(&n));
+                }
+            }
+            n
+        } else {
+            match &d.kind {
+                RawKind::Const(..) => format!("K{}{}", syl.to_uppercase(), pos),
+                RawKind::Service(_) => format!("Svc{}", pos),
+                _ => format!("{}{}", syl, pos),
+            }
         };
         if let Some(k) = nk {
             named.push(Named { file, name: name.clone(), pos, kind: k });
@@ -450,11 +617,20 @@ pub fn resolve(raw: &RawDoc) -> SDoc {
     let mut files: Vec<SFile> = (0..nfiles)
         .map(|i| {
             let (segs, seed) = raw.namespaces.get(i).copied().unwrap_or((0, 0));
-            let namespace: Vec<String> = (0..segs.min(3)).map(|s| format!("{}{}", NS[(seed as usize + s as usize * 3 + i) % NS.len()], i)).collect();
+            let namespace: Vec<String> = (0..segs.min(3))
+                .map(|s| {
+                    if raw.opts.hostile_names && (seed as usize + s as usize) % 2 == 0 {
+                        // keyword path segments; the file index keeps module paths of different files apart
+                        format!("{}{}", RUST_KEYWORDS[(seed as usize + s as usize * 7 + i) % RUST_KEYWORDS.len()], if s == 0 { i.to_string() } else { String::new() })
+                    } else {
+                        format!("{}{}", NS[(seed as usize + s as usize * 3 + i) % NS.len()], i)
+                    }
+                })
+                .collect();
             SFile { stem: format!("file{}", i), namespace, includes: vec![], decls: vec![] }
         })
         .collect();
-    let mut cx = Ctx { raw, named, done: vec![None; raw.decls.len()], files: vec![] };
+    let mut cx = Ctx { in_const: std::cell::Cell::new(false), raw, named, done: vec![None; raw.decls.len()], files: vec![] };
     let _ = &cx.files;
     let mut uses: Vec<std::collections::BTreeSet<usize>> = vec![Default::default(); nfiles];
 
@@ -476,6 +652,7 @@ pub fn resolve(raw: &RawDoc) -> SDoc {
         let (file, name) = names[pos].clone();
         let mk_fields = |cx: &Ctx, fs: &[RawField], files: &[SFile], is_union: bool, is_args: bool| -> Vec<SField> {
             let mut used_ids = std::collections::BTreeSet::new();
+            let mut used_names = std::collections::BTreeSet::new();
             let mut out = vec![];
             for (i, f) in fs.iter().enumerate() {
                 // ids: mostly small ascending, sometimes sparse / large
@@ -499,13 +676,18 @@ pub fn resolve(raw: &RawDoc) -> SDoc {
                 let allow_back = !is_args && (is_union || req != Req::Required);
                 let ty = cx.ty(&f.ty, pos, file, allow_back, false, is_union);
                 let default = if cx.raw.opts.defaults && !is_union && !is_args { f.default_seed.and_then(|s| cx.lit_for(files, &ty, s, 0)) } else { None };
-                out.push(SField { id, name: format!("f{}{}", SYL[(i * 5 + pos) % SYL.len()].to_lowercase(), i), req, ty, default, annots: vec![] });
+                let name = if cx.raw.opts.hostile_names { hostile(mixh(name_seed, (pos as u64) << 20 | (i as u64) << 8 | f.id_seed as u64), &mut used_names, false) } else { format!("f{}{}", SYL[(i * 5 + pos) % SYL.len()].to_lowercase(), i) };
+                let annots = if cx.raw.opts.annotations { field_annots(cx, &ty, f.id_seed, i) } else { vec![] };
+                let retyped = annots.iter().any(|(k, v)| k == "pilota.rust_wrapper_arc" || (k == "pilota.rust_type" && v == "vec"));
+                let default = if retyped && !cx.raw.opts.annotated_defaults { None } else { default };
+                out.push(SField { id, name, req, ty, default, annots });
             }
             out
         };
         let kind = match &d.kind {
             RawKind::Enum(ms) => {
                 let mut vals = std::collections::BTreeSet::new();
+                let mut used_names = std::collections::BTreeSet::new();
                 let mut out = vec![];
                 for (i, m) in ms.iter().enumerate() {
                     let mut v = match m % 4 {
@@ -517,17 +699,31 @@ pub fn resolve(raw: &RawDoc) -> SDoc {
                     while !vals.insert(v) {
                         v = v.wrapping_add(1) & i32::MAX;
                     }
-                    out.push((format!("M{}{}", SYL[(i * 3 + pos) % SYL.len()].to_uppercase(), i), v));
+                    let name = if raw.opts.hostile_names { hostile(mixh(name_seed, (pos as u64) << 24 | (i as u64) << 4 | 3), &mut used_names, false) } else { format!("M{}{}", SYL[(i * 3 + pos) % SYL.len()].to_uppercase(), i) };
+                    out.push((name, v));
+                }
+                if out.is_empty() {
+                    // (an enum / union without members has no value; kept out of the grammar)
+                    out.push((if raw.opts.hostile_names { "only".to_string() } else { format!("MONLY{}", pos) }, 0));
                 }
                 DeclKind::Enum(out)
             }
             RawKind::Typedef(t) => DeclKind::Typedef(cx.ty(t, pos, file, false, false, false)),
             RawKind::Struct(fs) => DeclKind::Struct(mk_fields(&cx, fs, &files, false, false)),
             RawKind::Exception(fs) => DeclKind::Exception(mk_fields(&cx, fs, &files, false, false)),
-            RawKind::Union(fs) => DeclKind::Union(mk_fields(&cx, fs, &files, true, false)),
+            RawKind::Union(fs) => {
+                let mut v = mk_fields(&cx, fs, &files, true, false);
+                if v.is_empty() {
+                    v.push(SField { id: 1, name: "only".into(), req: Req::Default, ty: STy::I32, default: None, annots: vec![] });
+                }
+                DeclKind::Union(v)
+            }
             RawKind::Const(t, seed) => {
                 let ty = cx.ty(t, pos, file, false, false, false);
-                match cx.lit_for(&files, &ty, *seed, 0) {
+                cx.in_const.set(true);
+                let l = cx.lit_for(&files, &ty, *seed, 0);
+                cx.in_const.set(false);
+                match l {
                     Some(l) => DeclKind::Const(ty, l),
                     None => DeclKind::Const(STy::I32, Lit::Int(*seed as i32 as i64)),
                 }
@@ -538,6 +734,7 @@ pub fn resolve(raw: &RawDoc) -> SDoc {
                 } else {
                     let excs: Vec<(usize, String)> = cx.named.iter().filter(|n| n.kind == NK::Exception && n.file >= file && n.pos < pos).map(|n| (n.file, n.name.clone())).collect();
                     let mut out = vec![];
+                    let mut used_names = std::collections::BTreeSet::new();
                     for (mi, m) in ms.iter().enumerate() {
                         let args = mk_fields(&cx, &m.args, &files, false, true);
                         let ret = m.ret.as_ref().map(|t| cx.ty(t, pos, file, false, false, false));
@@ -549,7 +746,8 @@ pub fn resolve(raw: &RawDoc) -> SDoc {
                             }
                         }
                         let oneway = m.oneway && ret.is_none() && throws.is_empty();
-                        out.push(Method { name: format!("m{}{}", SYL[(mi * 3 + pos) % SYL.len()].to_lowercase(), mi), oneway, ret, args, throws });
+                        let name = if raw.opts.hostile_names { hostile(mixh(name_seed, (pos as u64) << 28 | (mi as u64) << 4 | 5), &mut used_names, false) } else { format!("m{}{}", SYL[(mi * 3 + pos) % SYL.len()].to_lowercase(), mi) };
+                        out.push(Method { name, oneway, ret, args, throws });
                     }
                     DeclKind::Service(out, None)
                 }
